@@ -161,8 +161,97 @@ def check_rules(pid, tier, seed):
     chk.finish()
 
 
+FAMILY_SHARDS = {"KXK": 64, "EP": 28, "CASTLE": 10, "PROMO": 16, "PIN": 20, "KXXK": 128}
+
+
+def family_plan(pid, quick, seed):
+    """(family, shard, stride) jobs; quick tiers sub-sample by VERIF_SEED, thorough tiers enumerate."""
+    import random
+    rnd = random.Random(seed * 7919 + 13)
+    pick = lambda fam, n: rnd.sample(range(FAMILY_SHARDS[fam]), n)
+    if quick:
+        if pid == "C05":
+            plan = [("KXK", s, 3) for s in pick("KXK", 7)] + [("KXXK", s, 600) for s in pick("KXXK", 5)] + [("PROMO", s, 6) for s in pick("PROMO", 2)]
+        elif pid == "C02":
+            plan = [("CASTLE", s, 3) for s in pick("CASTLE", 5)] + [("EP", s, 4) for s in pick("EP", 4)] + [("PROMO", s, 5) for s in pick("PROMO", 3)] + [("KXK", s, 8) for s in pick("KXK", 2)]
+        elif pid == "C10":
+            plan = [("PIN", s, 80) for s in pick("PIN", 5)] + [("KXK", s, 8) for s in pick("KXK", 4)] + [("EP", s, 5) for s in pick("EP", 3)] + [("CASTLE", s, 4) for s in pick("CASTLE", 2)]
+        else:
+            plan = [("KXK", s, 8) for s in pick("KXK", 3)] + [("EP", s, 4) for s in pick("EP", 4)] + [("CASTLE", s, 3) for s in pick("CASTLE", 3)] \
+                + [("PROMO", s, 5) for s in pick("PROMO", 2)] + [("PIN", s, 80) for s in pick("PIN", 2)]
+    else:
+        if pid == "C05":
+            plan = [("KXK", s, 1) for s in range(64)] + [("KXXK", s, 60) for s in range(128)] + [("PROMO", s, 2) for s in range(16)]
+        elif pid == "C10":
+            plan = [("PIN", s, 10) for s in range(20)] + [("KXK", s, 2) for s in range(64)] + [("EP", s, 2) for s in range(28)] + [("CASTLE", s, 2) for s in range(10)]
+        else:
+            plan = [("KXK", s, 1) for s in range(64)] + [("EP", s, 1) for s in range(28)] + [("CASTLE", s, 1) for s in range(10)] \
+                + [("PROMO", s, 1) for s in range(16)] + [("PIN", s, 12) for s in range(20)] + [("KXXK", s, 150) for s in range(128)]
+    return [(f, s, st, (seed + 3 * s) % st) for f, s, st in plan]
+
+
+def family_replay(chk, wvbin, wd, pid, plan):
+    """spec -> impl: TLC enumerates the planned family shards, the replayer feeds them to the real code."""
+    jobs = []
+    for i, (fam, sh, stride, phase) in enumerate(plan):
+        outp = os.path.join(wd, "fam_%s_%03d.out" % (fam, sh))
+        jobs.append(dict(module="Families", env={"FAMILY": fam, "SHARD": sh, "STRIDE": stride, "PHASE": phase},
+                         stdout_path=outp, xmx="5g", timeout=3000))
+    res = tlc_many(jobs)
+    for r in res:
+        if r["rc"] != 0 or r["error"]:
+            sys.stderr.write(r.get("stdout", "")[-2000:])
+            tool_error("family enumeration failed: %s" % r["error"])
+        chk.coverage["states"] = chk.coverage.get("states", 0) + r["distinct"]
+        chk.coverage["transitions"] = chk.coverage.get("transitions", 0) + r["states"]
+    outs = [j["stdout_path"] for j in jobs]
+    # replay in parallel chunks
+    chunks = [outs[i::NPROC] for i in range(NPROC) if outs[i::NPROC]]
+    from concurrent.futures import ThreadPoolExecutor
+    def one(ic):
+        i, c = ic
+        mis = os.path.join(wd, "fam_mis_%02d.ndjson" % i)
+        o = wv(wvbin, ["families", "--in", ",".join(c), "--out", mis])
+        return json.loads(o.strip().splitlines()[-1]), mis
+    with ThreadPoolExecutor(max_workers=NPROC) as ex:
+        rs = list(ex.map(one, enumerate(chunks)))
+    tot = {}
+    samples = []
+    for summ, mis in rs:
+        for k, v in summ.items():
+            if k == "samples":
+                samples += v
+            else:
+                tot[k] = tot.get(k, 0) + v
+        others = {}
+        for l in open(mis):
+            m = json.loads(l)
+            if m["prop"] != pid:
+                others[m["prop"]] = others.get(m["prop"], 0) + 1
+                continue
+            key = "|".join([m["prop"], m["kind"], m["fen"]] + [str(m[k]) for k in ("mv", "persp", "ply") if k in m])
+            chk.violation(key, "%s: %s" % (m["kind"], json.dumps({k: v for k, v in m.items() if k not in ("prop", "kind")}, sort_keys=True)),
+                          {"family_case": m, "replay": "wv families on the GEN line of this fen"})
+        if others:
+            chk.notes.append("family replay mismatches for other properties (reported by their own checks): %s" % others)
+    for r in res:
+        if r.get("stdout_path"):
+            pass
+    for o in outs:
+        try:
+            os.remove(o)
+        except OSError:
+            pass
+    chk.coverage["family_replay"] = dict(tot, shards=[list(p) for p in plan][:40], shard_count=len(plan))
+    chk.coverage["family_samples"] = samples[:3]
+    return tot
+
+
 def extra_rules(chk, pid, wvbin, wd, quick):
-    pass
+    tot = family_replay(chk, wvbin, wd, pid, family_plan(pid, quick, chk.seed))
+    chk.coverage["evaluations"] = chk.coverage.get("evaluations", 0) + tot.get("positions", 0)
+    chk.coverage["distinct_nontrivial"] = chk.coverage.get("distinct_nontrivial", 0) + tot.get("checks", 0)
+    chk.coverage["rule"] += "; plus specification-enumerated families (3/4-man endgames, en passant with pins, castling through/into attack, promotions, pins): every enumerated position is distinct, counted non-trivial when the side to move is in check"
 
 
 CHECKS = {"C01": check_rules, "C02": check_rules, "C10": check_rules}
